@@ -13,7 +13,7 @@ META = {
             'suspension point of the call; its Drop closes the response receiver before queueing the cancellation, queues it only when armed and with the guard\'s own id; the guard is '
             'disarmed only after the response await completed; the dispatch transmits a dequeued request only on the not-closed edge of that request\'s own sender, registers it before '
             'writing it, and writes a Cancel only with the id taken from the cancellation queue and only on the hit edge of the table removal keyed by that id (so: only for transmitted, '
-            'unfinished requests, at most once, after the request). Request and Cancel messages are constructed nowhere else.',
+            'unfinished requests, at most once, after the request). Request and Cancel messages are constructed nowhere else. An entry leaves the client table without resolving its call only through the removal fed with ids from the cancellation queue (C03.removals), and an id taken from that queue is written in the same activation (C03.owed).',
     'note': 'Trusted: tokio oneshot close()/is_closed() visibility ordering, mpsc FIFO. Sub-poll interleavings are covered in the sense that these orderings are exactly the argument for them.',
 }
 
